@@ -4,11 +4,12 @@ from vlib.core import Case
 PROP = "C01"
 SPEC_MODE = "spec"
 KEEP_PREFIX = 0
+SHRINK_BUDGET = 150
 SIZES = {"quick": 600, "thorough": 12000}
 RULE = ("op histories over 1-6 resources: entries (default chain with isolation / hotspot rules, or custom chains from a behaviour "
         "table: node/no-op/panicking prepare slots, nil/pass/block/panicking rule slots, stat.DefaultSlot and recording slots), "
         "inbound/outbound, resource type varying between entries of one resource (api.WithResourceType), batch in {0,1,2,3,small,2^32-1}, 0-3 args incl. unhashable, nested and interleaved; TraceError (nil and "
-        "non-nil), Exit with/without error, double exits, two goroutines exiting one entry simultaneously (racexit, forced to overlap by a rendezvous stat slot), late Exit(WithError)/TraceError on exited ids after other entries reused "
+        "non-nil), Exit with/without error, double exits, options left out (traffic type, batch, flag, resource type, chain, args, attachments: the pooled EntryOptions must supply the default), attachments by WithAttachments(caller's map)+WithAttachment with the caller mutating its map afterwards, exit handlers (nil / error / panic), hotspot rules of metric type QPS and Concurrency, two goroutines exiting one entry simultaneously (racexit, forced to overlap by a rendezvous stat slot), late Exit(WithError)/TraceError on exited ids after other entries reused "
         "the pooled context, ops on blocked ids; multi-goroutine soaks (2-8 goroutines x 10-120 Entry/Trace/Exit rounds, GOMAXPROCS 8) whose final account is compared; time steps from {0,1,499,500,501,999,1000,1001,9999,10000,10001,>array}; reads of "
         "every counter (1 s and 10 s views), gauge, peak concurrency, min RT, ctx.Err/Args of live entries, recording-slot logs. "
         "non-trivial = at least one pass, one block, one completion, one late op on an exited id and one non-zero read; distinct by "
@@ -61,11 +62,13 @@ def gen_case(rng, cid):
         if rng.random() < 0.35:
             ops.append(f"rule iso {r} {rng.choice([1, 1, 2, 3, 5, 4294967295])}")
         if rng.random() < 0.3:
-            ops.append(f"rule hot {r}")
+            # hotspot rule on argument 0: QPS (panics on specificItems[arg]) or Concurrency (panics inside the parameter cache)
+            ops.append(f"rule {rng.choice(['hot', 'hotc'])} {r}")
             hot.add(r)
     live, done, blocked = [], [], []
     used = []
     chains = {}
+    withmap = []
     nid = 0
     late = []         # (countdown, op) scheduled late ops on exited ids
     nops = rng.randint(15, 90)
@@ -90,13 +93,32 @@ def gen_case(rng, cid):
             args = gen_args(rng, res in hot, panicky)
             # the resource type varies between entries of one resource (typed while untyped ones are in flight and vice versa)
             rty = f" type={rng.choice(RTYPES)}" if rng.random() < 0.45 else ""
-            ops.append(f"entry {nid} {res} {rng.choice(['in', 'out'])}{rty} {batch} {chain} {len(args)}" + "".join(" " + a for a in args))
+            # options that are NOT passed must come out as the defaults although the options object is pooled:
+            # traffic type (`-` = outbound), batch (`-` = 1), flag, resource type, slot chain, args, attachments
+            dirn = rng.choice(["in", "out", "in", "out", "-"])
+            if rng.random() < 0.15:
+                rty += f" flag={rng.choice([1, -1, 7, 2147483647])}"
+            bt = "-" if (rng.random() < 0.3 and not big) else str(batch)
+            att = ""
+            if rng.random() < 0.2:
+                keys = rng.sample(["k1", "k2", "k3", "k4"], rng.randint(0, 3))
+                att = " |" + "".join(f" {k}={rng.choice('uvw')}{rng.randint(0, 9)}" for k in keys)
+                if rng.random() < 0.6:
+                    att += " |" + "".join(f" {rng.choice(['k1', 'k2', 'k5', 'k6'])}={rng.choice('xyz')}{j}" for j in range(rng.randint(1, 2)))
+                withmap.append(nid)
+            ops.append(f"entry {nid} {res} {dirn}{rty} {bt} {chain} {len(args)}" + "".join(" " + a for a in args) + att)
             chains[nid] = chain
+            if att and rng.random() < 0.7:
+                ops.append(f"attmap {nid}")
+                ops.append(f"ctx {nid} att")
             if res not in used:
                 used.append(res)
             live.append(nid)   # may in fact be blocked: ops on blocked ids are part of the domain
             if rng.random() < 0.3:
-                ops.append(f"ctx {nid} {rng.choice(['err', 'args'])}")
+                ops.append(f"ctx {nid} {rng.choice(['err', 'args', 'att', 'flag', 'batch'])}")
+            if rng.random() < 0.12:
+                # exit handlers do not change the account (a panicking one is outside the domain: see notes)
+                ops.append(f"whenexit {nid} {rng.choice(['ok', 'err', 'err', 'err', 'ok', 'panic'] if rng.random() < 0.3 else ['ok', 'err', 'err'])}")
         elif r < 0.50 and (live or done):
             pool = live if (rng.random() < 0.75 and live) else (done or live)
             ops.append(f"trace {rng.choice(pool)} {rng.choice(ERRS)}")
@@ -127,13 +149,24 @@ def gen_case(rng, cid):
                     used.append(f"s{j}")
         elif r < 0.93:
             key = rng.choice((used or ress) + ["__inbound__"]) if rng.random() < 0.93 else rng.choice(ress + ["nosuch"])
-            g = rng.choice(["sum", "sum", "sum10", "conc", "conc", "maxconc", "minrt"])
-            if g in ("sum", "sum10"):
+            g = rng.choice(["sum", "sum", "sum10", "conc", "conc", "maxconc", "minrt", "type"])
+            if g == "type":
+                ops.append(f"read {rng.choice(ress)} type")
+            elif g in ("sum", "sum10"):
                 ops.append(f"read {key} {g} {rng.choice(EVS)}")
             else:
                 ops.append(f"read {key} {g}")
+        elif r < 0.955 and withmap:
+            # the caller goes on using its own attachment map; a live entry must keep what it was given at Entry time
+            i = rng.choice(withmap)
+            ops.append(f"attmut {i} {rng.choice(['k1', 'k2', 'k7'])} m{rng.randint(0, 9)}")
+            ops.append(f"ctx {i} att")
+            ops.append(f"attmap {i}")
         elif r < 0.97 and (live or done):
-            ops.append(f"ctx {rng.choice(live or done)} {rng.choice(['err', 'args'])}")
+            i = rng.choice(live or done)
+            ops.append(f"ctx {i} {rng.choice(['err', 'args', 'att', 'flag', 'batch'])}")
+            if rng.random() < 0.3:
+                ops.append(f"whenexit {i} {rng.choice(['ok', 'err'])}")
         else:
             ops.append("reclog")
     ops.extend(o for _, o in late)
@@ -194,7 +227,10 @@ def nontrivial(case, impl):
         if t[0] == "entry":
             npass += r == "pass"
             nblock += r == "block"
-            kinds.append("E" + ("t" if t[4].startswith("type=") else "") + t[5 + t[4].startswith("type=")] + r[:1])
+            k = 4
+            while t[k].startswith(("type=", "flag=")):
+                k += 1
+            kinds.append("E" + t[3][0] + str(k - 4) + t[k][:1] + t[k + 1] + r[:1])
         elif t[0] in ("exit", "racexit"):
             if t[1] in exited:
                 late += 1
